@@ -26,6 +26,10 @@ MULTILINE = [
     "cfg['password'] = (\n    'hunter2')\nd['token'] = \\\n    'tok'\nconf['secret'] = \\\n    (\n        's3cret'\n    )\n",
     # nosec comments on a later line of a bracketed construct: inserting an ORDINARY comment line inside the brackets, above the marker, changes nothing
     # (seeded change C10-m6: the first commented line of the range decided, so an ordinary comment shadowed the marker)
+    # the flagged call is the LAST link of a chain broken across lines: its node starts where the chain starts (seeded change C10-m17 let the range of such a call begin
+    # at the line of the attribute name: the reported line fell outside its own range)
+    "import tarfile\nimport requests\n\n\ndef unpack(path, dest):\n    tarfile.open(\n        path,\n    ).extractall(dest)\n\n\nr = (requests\n     .get(url, verify=False))\n",
+    "import subprocess\nout = subprocess.Popen(\n    cmd,\n    shell=True,\n).communicate(\n    pickle.loads(b))\nimport pickle\nv = (yaml\n     .load(\n         s))\nimport yaml\n",
     "import hashlib\nh = hashlib.md5(\n    data,\n    more,\n)  # nosec\nx = 1\n",
     "import subprocess\nsubprocess.Popen('ls *',\n                 env=e,\n                 shell=True\n                 )  # nosec B602, B607\nsubprocess.call(c,\n    shell=True)  # nosec B604\n",
 ]
@@ -207,7 +211,7 @@ def _run_main(res, ctx):
         for src in gap_programs + programs[:6]:
             flines = src.split("\n")
             nlines = len(flines) - 1 if src.endswith("\n") else len(flines)
-            for n in (1, 2, 3, 4, 5):
+            for n in (0, 1, 2, 3, 4, 5):          # -n 0 is a value (no surrounding lines), not "not given" (seeded change C10-m18 tested it for truth and fell back to 3)
                 r = C.run_cli(["-f", "json", "-q", "-n", str(n), "-"], stdin_bytes=src.encode())
                 res.case(("stdin-excerpt", src, n), True)
                 res.count("stdin-excerpt-n%d" % n)
@@ -229,6 +233,8 @@ def _run_main(res, ctx):
                         probs.append(f"excerpt lines not consecutive (-n {n})")
                     if not probs and x["line_number"] not in nums:
                         probs.append(f"excerpt does not include the flagged line (-n {n})")
+                    if not probs and len(nums) > len(x["line_range"]) + max(n, 1) - 1:
+                        probs.append(f"excerpt has {len(nums)} lines, more than the construct's {len(x['line_range'])} plus the requested context (-n {n})")
                     if probs:
                         res.violation("location / excerpt invariant broken for source piped on stdin",
                                       {"program": src, "channel": "stdin", "finding": [x["test_id"], x["line_number"], x["line_range"]], "excerpt": x["code"], "problems": probs})
